@@ -23,9 +23,19 @@ class Ptr:
     """documented pointer rules; conv=+1: a PHASE field at p has its input at p+shift (what reads
     do); conv=-1: the convention _GD_GetIOPos/_GD_Seek actually use"""
 
-    def __init__(self, case, conv=1):
-        self.sp = C.Spec(case); self.conv = conv
+    def __init__(self, case, conv=1, judge_shifted=False):
+        self.sp = C.Spec(case); self.conv = conv; self.judge_shifted = judge_shifted
         self.ptr = {r: self.sp.foff for r in self.sp.raw}
+
+    def minpos(self, f, p):
+        """smallest position any field on the way down is asked to take (the code rejects negatives)"""
+        sp = self.sp
+        if f in sp.raw: return p
+        g = sp.der[f]; kd = g["kind"]
+        if kd == "P": return min(p, self.minpos(g["in"], p + self.conv * g["shift"]))
+        if kd in ("L", "B"): return min(p, self.minpos(g["in"], p))
+        if kd == "M": return min(p, self.minpos(g["a"], p), self.minpos(g["b"], p))
+        return p
 
     def tell(self, f):
         ps = set()
@@ -38,7 +48,7 @@ class Ptr:
         sp = self.sp; bad = []
         for i, (o, (tok, opn)) in enumerate(zip(case["ops"], res)):
             got = C.impl_canon(tok); k = o[0]; exp = None
-            if k in "gst" and sp.shifted(o[1]):
+            if k in "gst" and sp.shifted(o[1]) and not self.judge_shifted:
                 # through a non-zero PHASE shift the documented convention and the code disagree
                 # (listed finding, replayed separately): such calls only make the inputs' pointers unknown
                 if k != "t" and not (k == "g" and o[3] == 0):
@@ -69,7 +79,7 @@ class Ptr:
                 else:
                     tgt = base + off
                     inr = all(sp.foff <= tgt + self.conv * sh <= sp.foff + len(sp.data[r]) for r, sh in sp.inputs(f))
-                    if tgt >= 0 and inr: exp = "P %d" % tgt
+                    if tgt >= 0 and inr and self.minpos(f, tgt) >= 0: exp = "P %d" % tgt
                     for r, sh in sp.inputs(f):
                         self.ptr[r] = (tgt + self.conv * sh) if (got == "P %d" % tgt and inr) else None
             elif k == "t":
@@ -177,7 +187,7 @@ def main():
             spec_bad.append((case, res, [(len(res), "an answer", "process died rc=%d %s" % (rc1, out[-150:].replace("\n", " ")))])); continue
         evals += len(res)
         if any(o[0] in "st" or (o[0] == "g" and o[2] == "H") for o in case["ops"]): nontriv.add(json.dumps(case, sort_keys=True))
-        bad = Ptr(case).judge(case, res)
+        bad = Ptr(case, judge_shifted=bool(cfg.get("fix_phase_sign"))).judge(case, res)
         if bad: spec_bad.append((case, res, bad))
         if C.in_model(case): inmodel.append((case, res))
     mouts, maps = C.model_outputs(drv, inmodel, cfg, True)
